@@ -11,7 +11,8 @@ CHECKS = {
                      "are executed by the real engine/API/messaging code inside the deterministic simulator under the "
                      "canonical schedule and compared with an independent reference interpreter of the States Language; "
                      "order-independent triples are re-run under non-canonical schedules. A clean batch is evidence over "
-                     "the sampled programs, not a proof.",
+                     "the sampled programs, not a proof."
+                     " Families include Catch on the Map/Parallel state itself and the service-integration form of Tasks.",
                 ref="5/C01", note=NOTE_BASE + "; the reference interpreter model/asl.py.",
                 technique="deterministic simulation: seeded program generation + differential check against a reference "
                           "interpreter on the simulated stack"),
@@ -20,7 +21,8 @@ CHECKS = {
                      "PCT/latency schedule policies; the notification sequence of every execution and the stored record "
                      "are monitored after every scheduler step, and bounded liveness is checked at quiescence; file store "
                      "(one instance) and Redis store (1-2 instances), both transports; a second slice runs executions that "
-                     "last about as long as or longer than execution_ttl, so that the stored record expires under them.",
+                     "last about as long as or longer than execution_ttl, so that the stored record expires under them."
+                     " Further slices: parents that launch child executions in every form (children ending by their own deadline, failure or the parent's time-out), start events published by a client straight to the event queue (with and without a message id), machines with a loggingConfiguration.",
                 ref="5/C02, 9.2", note=NOTE_BASE + ". No crashes injected (C04 owns them); failing cases are minimised "
                                                   "(checks/minimise.py) and replayed in a fresh process.",
                 technique="deterministic simulation: seeded schedule exploration with run-time monitors"),
@@ -29,7 +31,8 @@ CHECKS = {
                      "evaluated after every acknowledge/publish an engine issues, exactly-once acknowledgement is "
                      "enforced by the broker model, a Basic.Ack(multiple=True) that settles other deliveries is flagged, "
                      "uninterpretable messages are injected on the shared, instance and reply queues, and the drain "
-                     "condition is checked at quiescence.",
+                     "condition is checked at quiescence."
+                     " Further slices: task-token callback streams that leave orphaned responses, child launches (the child's start event is published before the launching event is acknowledged), a Task whose function queue does not exist (returned request), raw start events.",
                 ref="5/C03, 9.2", note=NOTE_BASE + ".",
                 technique="deterministic simulation: invariant checked at every simulated broker operation"),
 }
@@ -39,21 +42,24 @@ CHECKS.update({
                 text="Seeded search over schedules for generated successful Parallel/Map programs (differential against "
                      "the reference model: positional results, request multiset) with barrier / exactly-once / "
                      "MaxConcurrency monitors on the stream of history updates; plus the complete set of completion-order "
-                     "permutations for fan-out <= 4 x every MaxConcurrency (that slice is enumerated exhaustively).",
+                     "permutations for fan-out <= 4 x every MaxConcurrency (that slice is enumerated exhaustively)."
+                     " Further slices: the same fan-out state entered several times by a loop; an error caught inside an iteration whose fallback outlasts its siblings / its MaxConcurrency batch.",
                 ref="5/C05", note=NOTE_BASE + "; reference interpreter model/asl.py.",
                 technique="deterministic simulation: seeded schedule exploration + enumerated completion orders, "
                           "monitors and reference model"),
     "C06": dict(level="exploration",
                 text="Seeded search over schedules and failure assignments for generated non-nested Parallel/Map "
                      "programs with one, several or all failing branches; notification, sibling-silence, history-after-"
-                     "end, exactly-once-ack and drain monitors; outcome compared with the reference model's accept set.",
+                     "end, exactly-once-ack and drain monitors; outcome compared with the reference model's accept set."
+                     " A further slice places the branch failure shortly before the execution deadline with a sibling event in flight (fixed message latency).",
                 ref="5/C06", note=NOTE_BASE + ". Nested fan-out failures and Retry/Catch on the fan-out state itself "
                                              "are outside the generated region (recorded findings, probe).",
                 technique="deterministic simulation: seeded fault (task failure) and schedule exploration with monitors"),
     "C09": dict(level="exploration",
                 text="History well-formedness monitor validated incrementally after every scheduler step of generated "
                      "executions (all state types, failures, retries, fan-out) under seeded schedules; end-of-run "
-                     "agreement with the record, the model's transitions and GetExecutionHistory in both orders.",
+                     "agreement with the record, the model's transitions and GetExecutionHistory in both orders."
+                     " Includes Map/Parallel states retried or caught as a whole and machines with a loggingConfiguration; under the canonical schedule the StateEntered multiset is compared with the model also for failing fan-outs (cancelled siblings struck out).",
                 ref="5/C09", note=NOTE_BASE + "; reference interpreter for the expected transitions.",
                 technique="deterministic simulation: history invariant monitor on every simulated step"),
 })
@@ -68,7 +74,10 @@ CHECKS.update({
                      "completely; scenarios, schedules and down-times are sampled. A second, sampled slice injects 2-4 "
                      "crashes per run (some inside the recovery from the previous one) over file/Redis stores, both "
                      "transports, 1-2 instances and five schedule policies, with the same oracles plus DescribeExecution "
-                     "after the last restart.",
+                     "after the last restart. For crashes between two handlings no (function, payload) may be requested more "
+                     "often than in the crash-free run, no reply delivered to the restarted engine may stay unacknowledged, "
+                     "and a third sampled slice places crashes around task-token callbacks (an accepted callback completes "
+                     "its task). The corpus includes an execution started by a raw start event.",
                 ref="5/C04, 9.2", note=NOTE_BASE + "; the enumerated slice uses a single asyncio instance with the "
                                                   "file-backed store; workers keep replying while the engine is down.",
                 technique="deterministic simulation with crash/restart fault injection enumerated over every crash point "
@@ -76,7 +85,10 @@ CHECKS.update({
     "C07": dict(level="exploration",
                 text="Seeded search over retrier/catcher lists and scripted error sequences on the virtual clock: "
                      "request instants, terminal instant and outcome compared with a reference error-handling model "
-                     "(exact under zero latency, never-early under latency); publish monitor for leaked retry counters.",
+                     "(exact under zero latency, never-early under latency); publish monitor for leaked retry counters. "
+                     "Hand-shaped families: a Map with MaxConcurrency batches retried/caught as a whole with the failing "
+                     "item in any batch, a Parallel retried/caught while siblings wait (their Task.Terminated must not be "
+                     "retried or caught); under the canonical schedule requests are compared for failing fan-outs too.",
                 ref="5/C07", note=NOTE_BASE + "; reference model model/asl.py (per-retrier counters).",
                 technique="deterministic simulation: virtual-time differential check against a reference retry/catch model"),
     "C08": dict(level="exploration",
